@@ -589,6 +589,28 @@ func c10Run(t *testing.T, c *evid.Collector) {
 			}
 		}
 	}
+	// ---- sibling keys: a key spelled like another key plus the kind of suffix or prefix programs use for
+	// their own temporary, backup or bookkeeping files is an object of its own; no operation on the
+	// plain key may touch it
+	for _, k := range kinds {
+		for _, base := range []string{"a", "d/x"} {
+			dir, name := "", base
+			if i := strings.LastIndexByte(base, '/'); i >= 0 {
+				dir, name = base[:i+1], base[i+1:]
+			}
+			for _, sib := range []string{base + ".tmp", base + "~", base + ".bak", base + ".part", base + ".lock", base + ".meta", base + ".json", base + ".new", base + "-", base + ".", dir + "." + name + ".tmp", dir + "." + name + ".swp", dir + "tmp-" + name} {
+				for _, opk := range []string{"put", "del", "mdel", "copy-to", "complete", "post", "api-put", "api-del"} {
+					n++
+					if n%evid.Shards() != evid.Shard() {
+						continue
+					}
+					cs := c10Case{Backend: k, Ops: []c10Op{{K: "put", B: "bk0", Key: sib, Body: "the sibling object"}, {K: opk, B: "bk0", Key: base, Body: "addressed to the plain key"}}}
+					ds, acc := c10Exec(cs)
+					record("framing", cs, ds, acc, "sibling-keys")
+				}
+			}
+		}
+	}
 	// ---- hostile bucket names: nothing addressed to them may touch bk0 / bk1
 	for _, k := range kinds {
 		for _, b := range c10HostileBuckets {
